@@ -9,7 +9,7 @@
 
 int main(void) {
 	char * line;
-	token_pool_init();
+	H_POOL_INIT();
 	while ((line = h_readline(stdin))) {
 		char * f[5];
 		int nf = h_split(line, ' ', f, 5);
@@ -33,7 +33,7 @@ int main(void) {
 		}
 		fflush(stdout);
 		free(src); free(key); free(line);
-		token_pool_drain(); token_pool_init();
+		H_POOL_DRAIN(); H_POOL_INIT();
 	}
 	return 0;
 }
